@@ -443,38 +443,44 @@ func c08groups() []c08group {
 	eFixed := vx.Fill("c08e", 32)
 	add("SignHashed(d,k)", dk, func(s []byte) { sm2.SignHashed(stream(s[32:], s[32:]), s[:32], eFixed) })
 	add("GenerateKey(d)", dk, func(s []byte) { sm2.GenerateKey(io.MultiReader(stream(s[:32]))) })
-	for _, verdict := range []int{-1, 0, 1} {
-		verdict := verdict
-		var ss [][]byte
-		ref := vx.Fill("c08cmpref", 32)
-		for i := 0; i < 32; i++ {
-			if verdict == 0 {
-				continue
-			}
-			a := append([]byte{}, ref...)
-			v := int(a[i]) + verdict
-			if v < 0 || v > 255 {
-				continue
-			}
-			a[i] = byte(v)
-			for _, tail := range []byte{0, 0xff} {
-				b := append([]byte{}, a...)
-				for k := i + 1; k < 32; k++ {
-					b[k] = tail
+	for _, L := range []int{32, 1, 7, 8, 20, 31, 33, 64} {
+		for _, verdict := range []int{-1, 0, 1} {
+			verdict, L := verdict, L
+			var ss [][]byte
+			ref := vx.Fill("c08cmpref", L)
+			for i := 0; i < L; i++ {
+				if verdict == 0 {
+					continue
 				}
-				ss = append(ss, b)
+				a := append([]byte{}, ref...)
+				v := int(a[i]) + verdict
+				if v < 0 || v > 255 {
+					continue
+				}
+				a[i] = byte(v)
+				for _, tail := range []byte{0, 0xff} {
+					b := append([]byte{}, a...)
+					for k := i + 1; k < L; k++ {
+						b[k] = tail
+					}
+					ss = append(ss, b)
+				}
 			}
+			if verdict == 0 {
+				ss = append(ss, ref, ref)
+			}
+			name := fmt.Sprintf("ConstantTimeCmp(verdict %d)", verdict)
+			if L != 32 {
+				name = fmt.Sprintf("ConstantTimeCmp(l=%d, verdict %d)", L, verdict)
+			}
+			add(name, ss, func(s []byte) { utils.ConstantTimeCmp(s, ref, L) })
 		}
-		if verdict == 0 {
-			ss = append(ss, ref, ref)
-		}
-		add(fmt.Sprintf("ConstantTimeCmp(verdict %d)", verdict), ss, func(s []byte) { utils.ConstantTimeCmp(s, ref, 32) })
 	}
 	return gs
 }
 
 func TestVX_C08(t *testing.T) {
-	r := vx.Begin("C08", "ct-trace", "trace monitor over the instrumented Go sources (utils, fiat, internal, sm2): an event at every basic-block entry, at every evaluated short-circuit operand and for every non-constant index / slice bound (with its value); within a group (one primitive, fixed public parameters and final verdict) all enumerated secrets must produce the identical event trace: ScalarBaseMult on every window value at every window position + boundary scalars + 0x00/0xFF prefixes of every length; ScalarMult per (point, scalar length) on every nibble value at every position; Add/Double/Select/Negate over all operand pairs of {O,G,-G,2G,S}; field/scalar Invert, Equal, IsZero, Bytes, Select; MultiSelectXY/XYZ on every selector value; TestPrivateKey and ConstantTimeCmp per verdict class with the first differing byte at every position. Additionally every function executed in a group may statically call only math/bits, crypto/subtle, errors/fmt (error paths), encoding/binary and math.Pow outside the module")
+	r := vx.Begin("C08", "ct-trace", "trace monitor over the instrumented Go sources (utils, fiat, internal, sm2): an event at every basic-block entry, at every evaluated short-circuit operand and for every non-constant index / slice bound (with its value); within a group (one primitive, fixed public parameters and final verdict) all enumerated secrets must produce the identical event trace: ScalarBaseMult on every window value at every window position + boundary scalars + 0x00/0xFF prefixes of every length; ScalarMult per (point, scalar length) on every nibble value at every position; Add/Double/Select/Negate over all operand pairs of {O,G,-G,2G,S}; field/scalar Invert, Equal, IsZero, Bytes, Select; MultiSelectXY/XYZ on every selector value; TestPrivateKey and ConstantTimeCmp (lengths 1,7,8,20,31,32,33,64) per verdict class with the first differing byte at every position. Additionally every function executed in a group may statically call only math/bits, crypto/subtle, errors/fmt (error paths), encoding/binary and math.Pow outside the module")
 	defer r.End()
 	selfCheck()
 	if !c08load() {
